@@ -890,3 +890,9 @@ CORPUS += [
     V("C06", "mtvrp-checker-service-time-subtracted", _ME, 'curr_time + gather_by_index(td["service_time"], next_node)', 'curr_time - gather_by_index(td["service_time"], next_node)', "C06.j"),
     V("C06", "mtvrp-checker-open-route-flag-polarity", _ME, 'curr_length + dist * ~(td["open_route"].squeeze(-1) & (next_node == 0))', 'curr_length + dist * (td["open_route"].squeeze(-1) & (next_node == 0))', "C06"),
 ]
+
+CORPUS += [
+    V("C03", "mdcpdp-free-leg-or", _MD, '(current_node < num_depot) & (td["current_node"] < num_depot),\n            0,', '(current_node < num_depot) | (td["current_node"] < num_depot),\n            0,', "C03.d"),
+    V("C03", "mdcpdp-open-mode-return-leg-strict", _MD, '(current_node < num_depot) & (td["current_node"] >= num_depot),', '(current_node < num_depot) & (td["current_node"] > num_depot),', "C03.d"),
+    V("C03", "mdcpdp-open-mode-guard-inverted", _MD, 'if self.problem_mode == "open":', 'if self.problem_mode != "open":', "C03.d"),
+]
